@@ -22,7 +22,7 @@ mvars == <<gvars, pert>>
 
 Opt(SS) == {NoVal} \cup SS           \* NoVal = option not given
 MkArgs(mp, ni, vals) ==            \* vals: [name |-> value or NoVal]
-    [mp |-> mp, numinst |-> ni, g |-> {o \in OptNames : vals[o] # NoVal},
+    [mp |-> mp, numinst |-> ni, eps |-> [t1 |-> 0, t2 |-> 0], g |-> {o \in OptNames : vals[o] # NoVal},
      v |-> [o \in OptNames |-> IF vals[o] = NoVal THEN 0 ELSE vals[o]]]
 
 (* Optional arguments come in three groups (ties/skew/two-sided, quotas,     *)
@@ -66,9 +66,9 @@ Legal(mp) ==
 
 (* single-fault perturbations of a legal vector *)
 Viol(mp) == {"numinst0", "n1_0", "pmin0", "pmin>pmax", "pmax>n2", "t1neg", "t1big",
-             "numinst_far", "n1_far", "pmax_far", "t1_far", "pmin_far"}      \* "_far": far beyond the bound, not just past it
+             "numinst_far", "n1_far", "pmax_far", "t1_far", "pmin_far", "t1_hair_above", "t1_hair_below"}      \* "_far": far beyond the bound, not just past it
             \cup (IF mp # "sm" THEN {"n2_0", "lqneg", "uq<n2", "lq>uq", "lq_far", "uq_far", "n2_far"} ELSE {})
-            \cup (IF mp # "ha" THEN {"t2neg", "t2big", "t2_far"} ELSE {})
+            \cup (IF mp # "ha" THEN {"t2neg", "t2big", "t2_far", "t2_hair_above", "t2_hair_below"} ELSE {})
             \cup (IF mp = "spa" THEN {"n3_0", "luq0", "ltneg", "lt>luq", "llq>lt", "llqneg", "lt_far", "llq_far", "luq_far"} ELSE {})
 Perts(mp) == {<<"none", "">>}
              \cup (IF Perturb THEN {<<"drop", o>> : o \in Required(mp)} \cup {<<"add", o>> : o \in Inapplicable(mp)}
@@ -95,6 +95,10 @@ Apply(a, pt) ==
       [] pt[2] = "t1big" -> set("t1", 25)
       [] pt[2] = "t2neg" -> set("t2", -5)
       [] pt[2] = "t2big" -> set("t2", 25)
+      [] pt[2] = "t1_hair_above" -> [set("t1", 20) EXCEPT !.eps.t1 = 1]      \* 1 + 2^-40
+      [] pt[2] = "t1_hair_below" -> [set("t1", 0) EXCEPT !.eps.t1 = -1]      \* -2^-40
+      [] pt[2] = "t2_hair_above" -> [set("t2", 20) EXCEPT !.eps.t2 = 1]
+      [] pt[2] = "t2_hair_below" -> [set("t2", 0) EXCEPT !.eps.t2 = -1]
       [] pt[2] = "numinst_far" -> [a EXCEPT !.numinst = -7]
       [] pt[2] = "n1_far" -> set("n1", -12)
       [] pt[2] = "n2_far" -> set("n2", -12)
@@ -128,6 +132,6 @@ MSpec == MInit /\ [][MNext]_mvars
 FamilySound == /\ pert[1] = "none" => Accepts(args)
                /\ pert[1] # "none" => ~Accepts(args)
 ExportArgs == gphase \in {"accepted", "rejected"} =>
-    PrintT("EXPORT " \o ToJson([mp |-> args.mp, numinst |-> args.numinst, given |-> args.g, v |-> args.v,
+    PrintT("EXPORT " \o ToJson([mp |-> args.mp, numinst |-> args.numinst, given |-> args.g, v |-> args.v, eps |-> args.eps,
                                 pert |-> pert, accept |-> Accepts(args)]))
 =============================================================================
